@@ -800,3 +800,267 @@ Definition observe_node (d : doc) (vn : vnode) : list (str * str) * (nat * nat *
    (st_ops_total st, st_ops_selected st, st_links_total st, st_links_selected st),
    option_map (map (fun t => (t_source t, t_status t, t_name t, t_target t))) (collect_transitions fs d)).
 Definition run_history (d : doc) (es : list event) := map (observe_node d) (heap_abs (heap_run false d es)).
+
+(* ------------------------------------------------------------------------------------------------ *)
+(* access histories on ONE schema object: the per-schema operation cache                               *)
+(* specs/openapi/_cache.py OperationCache: _id_to_operation, _traversal_key_to_operation, _reference_to_operation
+   (all three point into _operations) are filled by get_operation_by_id (schemas.py:467), get_operation_by_reference
+   (schemas.py:516) and MethodMap._init_operation (schemas.py:890, schema[path][method]) - NONE of them consults the
+   filter set.  _id_to_definition (filled once by _populate_operation_id_cache) is a function of the document:
+   find_op_by_id below.  The traversal key is (scope, path, method); path items behind a reference are outside the
+   fragment, so there is ONE scope and the key is (path, method).  A Python dict is a list with the newest binding
+   first.  get_all_operations (schemas.py:295) does not touch the cache: that is [reuse = false].  [reuse = true] is
+   the variant in which the traversal takes a cache hit BEFORE the filter test and inserts what it builds: it is NOT
+   the code, it is kept as a sentinel (C07_cache_reuse_not_transparent). *)
+Definition key_eqb (a b : str * str) : bool := str_eqb (fst a) (fst b) && str_eqb (snd a) (snd b).
+Fixpoint key_get {A} (k : str * str) (l : list ((str * str) * A)) : option A :=
+  match l with
+  | [] => None
+  | (k', v) :: r => if key_eqb k k' then Some v else key_get k r
+  end.
+
+Record ocache := {
+  oc_by_id : list (str * op);
+  oc_by_key : list ((str * str) * op);
+  oc_by_ref : list (str * op) }.
+Definition oc_empty : ocache := {| oc_by_id := []; oc_by_key := []; oc_by_ref := [] |}.
+(* _cache.py:84 insert_operation *)
+Definition oc_insert (o : op) (key : str * str) (id ref : option str) (c : ocache) : ocache :=
+  {| oc_by_id := match id with Some i => (i, o) :: oc_by_id c | None => oc_by_id c end;
+     oc_by_key := (key, o) :: oc_by_key c;
+     oc_by_ref := match ref with Some r => (r, o) :: oc_by_ref c | None => oc_by_ref c end |}.
+Definition op_key (o : op) : str * str := (o_path o, o_method o).
+
+(* _id_to_definition: operationId -> (path, method, path item, RAW entry), the last definition wins *)
+Definition item_id_ops (path : str) (item : path_item) : list (str * op) :=
+  flat_map (fun kd : str * opdef =>
+    if is_http_method (fst kd) then
+      match jget s_operationId (od_raw (snd kd)) with
+      | Some (JStr i) => [(i, {| o_path := path; o_method := fst kd; o_def := snd kd |})]
+      | _ => []
+      end
+    else []) item.
+Definition doc_id_ops (d : doc) : list (str * op) := flat_map (fun pi => item_id_ops (fst pi) (snd pi)) d.
+Definition find_op_by_id (d : doc) (id : str) : option op := assoc_get id (rev (doc_id_ops d)).
+(* resolver.resolve(reference): path and method are the last two segments, no HTTP_METHODS test *)
+Definition find_op_by_ref (d : doc) (ref : str) : option op :=
+  match parse_ref ref with
+  | Some (p, m) =>
+      match assoc_get p d with
+      | Some item => match assoc_get m item with
+                     | Some od => Some {| o_path := p; o_method := m; o_def := od |}
+                     | None => None
+                     end
+      | None => None
+      end
+  | None => None
+  end.
+Definition resolved_operation_id (od : opdef) : option str :=
+  match jget s_operationId (od_resolved od) with Some (JStr i) => Some i | _ => None end.
+
+(* schemas.py:467 get_operation_by_id.  None = OperationNotFound *)
+Definition cache_by_id (d : doc) (c : ocache) (id : str) : ocache * option op :=
+  match assoc_get id (oc_by_id c) with
+  | Some o => (c, Some o)
+  | None =>
+      match find_op_by_id d id with
+      | None => (c, None)
+      | Some o =>
+          match key_get (op_key o) (oc_by_key c) with
+          | Some o' => (c, Some o')
+          | None => (oc_insert o (op_key o) (Some id) None c, Some o)
+          end
+      end
+  end.
+(* schemas.py:516 get_operation_by_reference.  None = RefResolutionError *)
+Definition cache_by_ref (d : doc) (c : ocache) (ref : str) : ocache * option op :=
+  match assoc_get ref (oc_by_ref c) with
+  | Some o => (c, Some o)
+  | None =>
+      match find_op_by_ref d ref with
+      | None => (c, None)
+      | Some o =>
+          match key_get (op_key o) (oc_by_key c) with
+          | Some o' => (c, Some o')
+          | None => (oc_insert o (op_key o) None (Some ref) c, Some o)
+          end
+      end
+  end.
+(* CaseInsensitiveDict(path_item)[m]: the value stored LAST under a key equal to m up to case *)
+Definition ci_find (m : str) (item : path_item) : option opdef :=
+  fold_left (fun acc (kd : str * opdef) => if str_eqb (lower_ascii (fst kd)) (lower_ascii m) then Some (snd kd) else acc)
+            item None.
+(* schema[path][method]: schemas.py:117 _get_operation_map + schemas.py:890 MethodMap._init_operation.
+   None = OperationNotFound / LookupError.  The method is lower-cased, the operationId is the RESOLVED one. *)
+Definition cache_by_item (d : doc) (c : ocache) (path method : str) : ocache * option op :=
+  match assoc_get path d with
+  | None => (c, None)
+  | Some item =>
+      let m := lower_ascii method in
+      match ci_find m item with
+      | None => (c, None)
+      | Some od =>
+          match key_get (path, m) (oc_by_key c) with
+          | Some o' => (c, Some o')
+          | None =>
+              let o := {| o_path := path; o_method := m; o_def := od |} in
+              (oc_insert o (path, m) (resolved_operation_id od) None c, Some o)
+          end
+      end
+  end.
+
+(* get_all_operations with the cache threaded through.  reuse = false is schemas.py:295 (the cache is neither read
+   nor written); reuse = true is the sentinel. *)
+Fixpoint traverse_item (reuse : bool) (fs : filter_set) (path : str) (item : path_item) (c : ocache) : ocache * list op :=
+  match item with
+  | [] => (c, [])
+  | (method, od) :: r =>
+      if negb (is_http_method method) then traverse_item reuse fs path r c
+      else
+        match (if reuse then key_get (path, method) (oc_by_key c) else None) with
+        | Some o => let (c', ops) := traverse_item reuse fs path r c in (c', o :: ops)
+        | None =>
+            if should_skip fs path method (od_resolved od) then traverse_item reuse fs path r c
+            else
+              let o := {| o_path := path; o_method := method; o_def := od |} in
+              let c1 := if reuse then oc_insert o (path, method) (resolved_operation_id od) None c else c in
+              let (c', ops) := traverse_item reuse fs path r c1 in (c', o :: ops)
+        end
+  end.
+Fixpoint traverse (reuse : bool) (fs : filter_set) (d : doc) (c : ocache) : ocache * list op :=
+  match d with
+  | [] => (c, [])
+  | (p, item) :: r =>
+      let (c1, a) := traverse_item reuse fs p item c in
+      let (c2, b) := traverse reuse fs r c1 in
+      (c2, a ++ b)
+  end.
+
+(* stateful/__init__.py:90 collect_transitions on the cache: every link of every offered operation is resolved, in
+   order, through get_operation_by_id / get_operation_by_reference.  An unknown operationId is collected as an error
+   (InvalidStateMachine after the loop: the remaining links are still resolved); a missing responses key, an
+   unresolvable operationRef or a link without target raise at once. *)
+Inductive sm_item := SLink (source : str) (l : link) | SAbort.
+Definition sm_items (ops : list op) : list sm_item :=
+  flat_map (fun o => match links_of_raw (od_raw (o_def o)) with
+                     | None => [SAbort]
+                     | Some ls => map (SLink (op_label o)) ls
+                     end) ops.
+Inductive sm_res := SmAbort | SmDone (ts : list transition) (errors : bool).
+Definition sm_keep (labels : list str) (source : str) (l : link) (o : op) (r : sm_res) : sm_res :=
+  match r with
+  | SmAbort => SmAbort
+  | SmDone ts e =>
+      if existsb (str_eqb (op_label o)) labels
+      then SmDone ({| t_source := source; t_status := l_status l; t_name := l_name l; t_target := op_label o |} :: ts) e
+      else SmDone ts e
+  end.
+Definition sm_error (r : sm_res) : sm_res := match r with SmAbort => SmAbort | SmDone ts _ => SmDone ts true end.
+Fixpoint sm_run (d : doc) (labels : list str) (items : list sm_item) (c : ocache) : ocache * sm_res :=
+  match items with
+  | [] => (c, SmDone [] false)
+  | SAbort :: _ => (c, SmAbort)
+  | SLink source l :: r =>
+      match l_target l with
+      | TBad => (c, SmAbort)
+      | TId i =>
+          let (c1, res) := cache_by_id d c i in
+          let (c2, rest) := sm_run d labels r c1 in
+          (c2, match res with Some o => sm_keep labels source l o rest | None => sm_error rest end)
+      | TRef ref =>
+          let (c1, res) := cache_by_ref d c ref in
+          match res with
+          | None => (c1, SmAbort)
+          | Some o => let (c2, rest) := sm_run d labels r c1 in (c2, sm_keep labels source l o rest)
+          end
+      end
+  end.
+Definition sm_final (r : sm_res) : option (list transition) :=
+  match r with SmDone ts false => Some ts | _ => None end.
+(* schema.as_state_machine(): traversal, then the links of what was offered *)
+Definition machine_step (reuse : bool) (d : doc) (fs : filter_set) (c : ocache) : ocache * option (list transition) :=
+  let (c1, ops) := traverse reuse fs d c in
+  let (c2, r) := sm_run d (map op_label ops) (sm_items ops) c1 in
+  (c2, sm_final r).
+
+Inductive access :=
+| AById (id : str)                 (* schema.get_operation_by_id(id) *)
+| AByRef (ref : str)               (* schema.get_operation_by_reference(ref) *)
+| AItem (path method : str)        (* schema[path][method] *)
+| ATraverse                        (* list(schema.get_all_operations()) *)
+| AStat                            (* schema.statistic (cached_property, schemas.py:263) *)
+| AMeasure                         (* schema._measure_statistic() *)
+| AMachine.                        (* schema.as_state_machine() *)
+Inductive aobs :=
+| OLookup (r : option (str * str))                       (* (path, method) of the returned operation; None = raises *)
+| OOffered (l : list (str * str))
+| OStatistic (s : nat * nat * nat * nat)
+| OMachine (ts : option (list (str * str * str * str))). (* None = raises *)
+Record astate := { as_cache : ocache; as_stat : option statistic }.
+Definition astate_init : astate := {| as_cache := oc_empty; as_stat := None |}.
+
+Definition stat_tuple (s : statistic) : nat * nat * nat * nat :=
+  (st_ops_total s, st_ops_selected s, st_links_total s, st_links_selected s).
+Definition offered_pairs (ops : list op) : list (str * str) := map (fun o => (o_path o, o_method o)) ops.
+Definition transition_tuples (ts : list transition) : list (str * str * str * str) :=
+  map (fun t => (t_source t, t_status t, t_name t, t_target t)) ts.
+
+Definition access_step (reuse : bool) (d : doc) (fs : filter_set) (st : astate) (a : access) : astate * aobs :=
+  let with_cache (cr : ocache * option op) :=
+    ({| as_cache := fst cr; as_stat := as_stat st |}, OLookup (option_map op_key (snd cr))) in
+  match a with
+  | AById i => with_cache (cache_by_id d (as_cache st) i)
+  | AByRef r => with_cache (cache_by_ref d (as_cache st) r)
+  | AItem p m => with_cache (cache_by_item d (as_cache st) p m)
+  | ATraverse =>
+      let (c, ops) := traverse reuse fs d (as_cache st) in
+      ({| as_cache := c; as_stat := as_stat st |}, OOffered (offered_pairs ops))
+  | AStat =>
+      match as_stat st with
+      | Some s => (st, OStatistic (stat_tuple s))
+      | None => let s := measure_statistic fs d in
+                ({| as_cache := as_cache st; as_stat := Some s |}, OStatistic (stat_tuple s))
+      end
+  | AMeasure => (st, OStatistic (stat_tuple (measure_statistic fs d)))
+  | AMachine =>
+      let (c, r) := machine_step reuse d fs (as_cache st) in
+      ({| as_cache := c; as_stat := as_stat st |}, OMachine (option_map transition_tuples r))
+  end.
+Fixpoint access_run (reuse : bool) (d : doc) (fs : filter_set) (h : list access) (st : astate) : list aobs :=
+  match h with
+  | [] => []
+  | a :: r => let (st', o) := access_step reuse d fs st a in o :: access_run reuse d fs r st'
+  end.
+(* what the harness evaluates: from_dict(raw).include(..).exclude(..), then the history on that ONE object *)
+Definition run_access (reuse : bool) (d : doc) (cs : list call) (h : list access) : option (list aobs) :=
+  match apply_calls cs fs_empty 0 with
+  | inl fs => Some (access_run reuse d fs h astate_init)
+  | inr _ => None
+  end.
+(* region of the history-independence theorem for transitions: no schema[path][method] access (that lookup files
+   the operation under its RESOLVED operationId and under the lower-cased method) *)
+Definition no_item_access (h : list access) : bool :=
+  forallb (fun a => match a with AItem _ _ => false | _ => true end) h.
+
+(* region of the history-independence theorems: every schema[path][method] access of the history files the operation it
+   builds under an operationId that a FRESH get_operation_by_id resolves to that same (path, lower-cased method).  False
+   for a key that is a method only up to case (Post, GET), for a duplicated operationId that is not the last definition,
+   for an operationId that only the resolved definition has (operation behind a reference): finding C07-F6 *)
+Definition item_access_consistent (d : doc) (path method : str) : bool :=
+  match assoc_get path d with
+  | None => true
+  | Some item =>
+      match ci_find (lower_ascii method) item with
+      | None => true
+      | Some od =>
+          match resolved_operation_id od with
+          | None => true
+          | Some i => match find_by_id d i with
+                      | Some k => key_eqb k (path, lower_ascii method)
+                      | None => false
+                      end
+          end
+      end
+  end.
+Definition item_accesses_consistent (d : doc) (h : list access) : bool :=
+  forallb (fun a => match a with AItem p m => item_access_consistent d p m | _ => true end) h.
